@@ -29,6 +29,7 @@ func NewDedupQueue(store Store) *DedupQueue {
 
 func (q *DedupQueue) GetChunk(id ChunkID) (*Chunk, error) {
 	req, isInFlight := q.getChunkQueue.loadOrStore(id)
+	verifYield("dq.los", "kind", "get", "id", id, "inflight", isInFlight)
 
 	if isInFlight { // The request is already in-flight, wait for it to come back
 		data, err := req.wait()
@@ -48,16 +49,19 @@ func (q *DedupQueue) GetChunk(id ChunkID) (*Chunk, error) {
 	// Signal to any others that wait for us that we're done, they'll use our data
 	// and don't need to hit the store themselves
 	req.markDone(b, err)
+	verifYield("dq.done", "kind", "get", "id", id)
 
 	// We're done, drop the request from the queue to avoid keeping all the chunk data
 	// in memory after the request is done
 	q.getChunkQueue.delete(id)
+	verifYield("dq.del", "kind", "get", "id", id)
 
 	return b, err
 }
 
 func (q *DedupQueue) HasChunk(id ChunkID) (bool, error) {
 	req, isInFlight := q.hasChunkQueue.loadOrStore(id)
+	verifYield("dq.los", "kind", "has", "id", id, "inflight", isInFlight)
 
 	if isInFlight { // The request is already in-flight, wait for it to come back
 		data, err := req.wait()
@@ -70,9 +74,11 @@ func (q *DedupQueue) HasChunk(id ChunkID) (bool, error) {
 	// Signal to any others that wait for us that we're done, they'll use our data
 	// and don't need to hit the store themselves
 	req.markDone(hasChunk, err)
+	verifYield("dq.done", "kind", "has", "id", id)
 
 	// We're done, drop the request from the queue to avoid keeping all in memory
 	q.hasChunkQueue.delete(id)
+	verifYield("dq.del", "kind", "has", "id", id)
 	return hasChunk, err
 }
 
@@ -122,7 +128,9 @@ func newRequest() *request {
 
 // Wait for the request to complete. Returns the data as well as the error from the request.
 func (r *request) wait() (interface{}, error) {
+	verifYield("dq.wait")
 	<-r.done
+	verifYield("dq.woke")
 	return r.data, r.err
 }
 
@@ -130,5 +138,6 @@ func (r *request) wait() (interface{}, error) {
 func (r *request) markDone(data interface{}, err error) {
 	r.data = data
 	r.err = err
+	verifYield("dq.publish")
 	close(r.done)
 }
